@@ -35,6 +35,8 @@ def plan(tier, seed):
     # v2 data pages), lifted speedups.pyx
     from . import bytearray as BA
     jobs += BA.jobs("C01", tier, which=("h_pack_unpack", "h_unpack"))
+    from . import pageloop
+    jobs += pageloop.v2_jobs("C01", tier)
     jobs.append(ch("C01", "vf/pyshim/h_skip.py", "h_skip_nulls", t,
                    ["core.read_col", "core.read_data_page", "core.read_def", "core.skip_definition_bytes"]))
     # level / index streams: the decoder side (E1) on the shapes the writer produces
